@@ -642,6 +642,25 @@ type searchRequest struct {
 	revision revision
 }
 
+// merge folds a pending request the coordinator has not seen yet into the
+// request that is about to replace it, so that its payload is not lost
+func (r searchRequest) merge(pending searchRequest) searchRequest {
+	r.changed = r.changed || pending.changed
+	if r.nth == nil {
+		r.nth = pending.nth
+	}
+	if r.command == nil {
+		r.command, r.sync, r.environ = pending.command, pending.sync, pending.environ
+	} else if pending.command != nil {
+		// Superseded before it was started
+		removeFiles(pending.command.tempFiles)
+	}
+	if len(pending.denylist) > 0 && pending.revision.compatible(r.revision) {
+		r.denylist = append(pending.denylist, r.denylist...)
+	}
+	return r
+}
+
 type previewRequest struct {
 	template     string
 	scrollOffset int
@@ -6166,7 +6185,13 @@ func (t *Terminal) Loop() error {
 		t.mutex.Unlock() // Must be unlocked before touching reqBox
 
 		if reload {
-			t.eventBox.Set(EvtSearchNew, *reloadRequest)
+			// The coordinator may not have taken the previous request yet
+			t.eventBox.Update(EvtSearchNew, func(pending any) any {
+				if prev, ok := pending.(searchRequest); ok {
+					return reloadRequest.merge(prev)
+				}
+				return *reloadRequest
+			})
 		}
 		for _, event := range events {
 			t.reqBox.Set(event, nil)
